@@ -60,6 +60,19 @@ fn gen_case(rng: &mut Rng, out: &mut Out, tier: &str) {
     ));
     let len = rng.range(1, if tier == "thorough" { 40 } else { 25 });
     let mut has_pos = vec![false; nins];
+    // a third of the cases start with a priced position on (almost) every instrument, so that
+    // ClosePositions / CancelOrders commands produce requests for SEVERAL exchanges at once (mixed
+    // link health within one command)
+    if rng.chance(33) {
+        for i in 0..nins {
+            if rng.chance(85) {
+                out.line(format!("ev price {i} {}", 100 + rng.below(5)));
+                out.line(format!("ev fill {i} {} {}", if rng.chance(50) { "B" } else { "S" }, 1 + rng.below(3)));
+                has_pos[i] = true;
+            }
+        }
+        out.line(format!("ev close_positions {}", gen_filter(rng, nex, nins)));
+    }
     for _ in 0..len {
         if rng.chance(55) {
             let nc = rng.below(3);
